@@ -172,6 +172,20 @@ func (g *Gen) seedGenesis(gs *GenesisSpec) {
 		// "zz" sorts after every other id: the owner of the last denom in key order
 		p.Denoms = append(p.Denoms, map[string]string{"id": "zz-last", "name": "last", "symbol": "Z", "desc": "", "uri": "", "uri_hash": "", "data": "", "owner": g.addr(5)})
 	}
+	if r.Chance(0.12) {
+		// two tokens whose (denom id, token id) pairs read the same once joined with a separator
+		sep := []string{"/", "/", "/", ":", "|", "."}[r.Intn(6)]
+		a, b, c := "hospital", "ward7", "bed12"
+		if !usedD[a] && !usedD[a+sep+b] {
+			usedD[a], usedD[a+sep+b] = true, true
+			o := g.addr(r.Intn(5))
+			for _, dn := range []string{a, a + sep + b} {
+				p.Denoms = append(p.Denoms, map[string]string{"id": dn, "name": "joined", "symbol": "J", "desc": "", "uri": "", "uri_hash": "", "data": "", "owner": o})
+			}
+			p.Tokens = append(p.Tokens, map[string]string{"denom": a, "id": b + sep + c, "name": "t", "desc": "", "uri": "", "uri_hash": "", "data": "", "creator": o, "owner": o, "at": fmt.Sprint(gs.TimeUnix - 7)})
+			p.Tokens = append(p.Tokens, map[string]string{"denom": a + sep + b, "id": c, "name": "t", "desc": "", "uri": "", "uri_hash": "", "data": "", "creator": o, "owner": o, "at": fmt.Sprint(gs.TimeUnix - 6)})
+		}
+	}
 	gs.Pnft = p
 	// the planning model must know the seeded state
 	_, m := g.env.BuildGenesisModelOnly(gs)
